@@ -117,6 +117,11 @@ def run_case(ctx, rep, spec, cn, posname, pos, fields, limit, model, path=None, 
             rep.tie(f"level header text of levels {diff} differs from the Lean renderer (whose parse-after-render law is proved)", case)
         else:
             rep.agree()
+        why = writers.global_header_theorem_applies(out, leanio)
+        if why:
+            rep.tie(f"global header of the written slice: {why} (whose parse-after-render law is proved)", case)
+        else:
+            rep.agree(); rep.count("header-theorem-applies")
     if model and not bad:
         # distribution of the boxes over binary files against the Lean chunking model
         reqs = []
